@@ -738,6 +738,103 @@ def cases_autogrid(tier):
     return out
 
 
+# ------------------------------------------- representation of the inputs
+FN_REP = 'mc.checks.c14_mapping:case_representation'
+
+
+def case_representation(c):
+    """The same numbers handed over as float64 / int64 / int32 / float32
+    arrays (C- or F-ordered, full 3-D or flat), as lists, or as 0-d arrays
+    give the same model: stored as float64, same VolumeModel coefficients;
+    later assignments of non-integer values are stored as given."""
+    import emg3d
+    shape = (2, 3, 2)
+    grid = zoo.mesh({'shape': shape, 'w': 'uni'})
+    mp, case_ = c['mapping'], c['case']
+    n = int(np.prod(shape))
+    # integer-valued mapped parameters (valid in every mapping)
+    base = (1 + (np.arange(n) % 4)).reshape(shape, order='F')
+    sign = -1 if (mp.startswith('L') and c['neg']) else 1
+    vals = {'property_x': sign*base, 'property_y': sign*(base % 3 + 1),
+            'property_z': sign*(5 - base)}
+    names = {'isotropic': ['property_x'], 'VTI': ['property_x', 'property_z'],
+             'HTI': ['property_x', 'property_y'],
+             'triaxial': ['property_x', 'property_y', 'property_z']}[case_]
+
+    def rep(a):
+        k = c['rep']
+        if k == 'int64':
+            return np.array(a, dtype=np.int64)
+        if k == 'int32-F':
+            return np.asfortranarray(np.array(a, dtype=np.int32))
+        if k == 'float32':
+            return np.array(a, dtype=np.float32)
+        if k == 'flat-int':
+            return np.array(a, dtype=np.int64).ravel('F')
+        if k == 'list':
+            return np.asarray(a).tolist()
+        if k == 'view':
+            big = np.zeros((4, 6, 4), dtype=np.int64)
+            big[::2, ::2, ::2] = a
+            return big[::2, ::2, ::2]
+        return np.array(a, dtype=float)
+    viol = []
+    with warnings.catch_warnings(), _quiet():
+        ref_m = emg3d.Model(grid, mapping=mp, **{
+            k: np.array(vals[k], dtype=float) for k in names})
+        try:
+            model = emg3d.Model(grid, mapping=mp,
+                                **{k: rep(vals[k]) for k in names})
+        except Exception as e:      # noqa - valid values must be accepted
+            return {'viol': [{
+                'cls': 'valid-values-rejected-in-this-representation',
+                'what': f'{c}: {type(e).__name__}: {str(e)[:120]}'}],
+                'compared': 1, 'nontrivial': True}
+        sfield = emg3d.Field(grid, frequency=c['freq'])
+        v1 = emg3d.models.VolumeModel(model, sfield)
+        v0 = emg3d.models.VolumeModel(ref_m, sfield)
+        for k in names:
+            a = getattr(model, k)
+            if a.dtype != np.float64 or not np.array_equal(
+                    a, getattr(ref_m, k)):
+                viol.append({'cls': 'model-stores-other-values',
+                             'what': f'{c}: {k} stored as {a.dtype}, '
+                                     'values differ from the float64 model'})
+        for k in ('eta_x', 'eta_y', 'eta_z', 'zeta'):
+            if not np.allclose(getattr(v1, k), getattr(v0, k), rtol=1e-14,
+                               atol=0):
+                viol.append({'cls': 'volumemodel-depends-on-input-dtype',
+                             'what': f'{c}: {k} differs from the model built '
+                                     'from float64 arrays'})
+        # assignment of non-integer values afterwards
+        new = np.array(vals['property_x'], dtype=float)*1.37 + 0.4*sign
+        model.property_x = new
+        if not np.array_equal(model.property_x, new):
+            viol.append({'cls': 'accepted-assignment-not-stored',
+                         'what': f'{c}: property_x after assignment of '
+                                 'non-integer values is not what was '
+                                 'assigned (dtype '
+                                 f'{model.property_x.dtype})'})
+    return {'viol': viol, 'compared': 3 + len(names), 'transitions': 2,
+            'nontrivial': True, 'outcome': (c['rep'], mp[:2], bool(viol))}
+
+
+def cases_representation(tier):
+    out = []
+    for mp in MAPPINGS:
+        for case_ in ('isotropic', 'VTI', 'HTI', 'triaxial'):
+            for rp in ('float', 'int64', 'int32-F', 'float32', 'flat-int',
+                       'list', 'view'):
+                for neg in (False, True):
+                    if neg and not mp.startswith('L'):
+                        continue
+                    for freq in ((10.0,) if tier == 'quick' else
+                                 (10.0, -50.0)):
+                        out.append({'mapping': mp, 'case': case_, 'rep': rp,
+                                    'neg': neg, 'freq': freq})
+    return out
+
+
 # ------------------------------------------------------------------------ run
 def prepare(ctx):
     impl.warm()
@@ -780,6 +877,15 @@ def run(ctx):
                          ' / last) + assignment to absent properties; '
                          'non-trivial = verdict fixed by the property',
                     time_cap=cap)
+    if ctx.wants('representation'):
+        ctx.explore('representation', FN_REP, cases_representation(ctx.tier),
+                    engine='E1',
+                    rule='6 mappings x 4 cases x 7 representations of the '
+                         'same integer-valued parameters (float64, int64, '
+                         'F-ordered int32, float32, flat, list, strided '
+                         'view) x sign (log mappings): stored as float64, '
+                         'same coefficients, later non-integer assignment '
+                         'kept', time_cap=cap)
     if ctx.wants('autogrid'):
         ctx.explore('autogrid', FN_GRID, cases_autogrid(ctx.tier),
                     engine='E1',
